@@ -15,7 +15,9 @@ RULE = ("shape triples (m,n,k) are enumerated exhaustively (quick: 1..4, thoroug
         "arithmetic) and a mixed-magnitude entry family; non-conformable pairs (transposed, off by one in rows, in "
         "columns) and out-of-range indices are requested for every guarded entry point. A case is non-trivial when the "
         "model answers ok or err; it is counted once per distinct (operation, spelling, operand shapes, outcome).")
-CORR_ONLY = ["Matrix::Norm accumulates the squares unscaled: requests keep its entries within 1e-21..1e21 (Vector::Norm is "
+CORR_ONLY = ["Normalize/Normalized of vectors with an irrational norm: the rational model answers undef; decided by the oracle "
+             "against a 300-bit square root",
+             "Matrix::Norm accumulates the squares unscaled: requests keep its entries within 1e-21..1e21 (Vector::Norm is "
              "requested over the whole double range since fix 8a680df)",
              "Vector::Norm / Matrix::Norm: the model gives the exact sum of squares; the square root is compared "
              "through its square (DESIGN.md C04 [T2])"]
@@ -435,6 +437,62 @@ def rowcol_block(R, rng, thorough):
         R.append("c04.rowcol %s %s %s" % (mat_tok(rmat(rng, m, n, fam)), lst(rvec(rng, n, fv)), lst(rvec(rng, m, fv))))
 
 
+
+def normalized_scale_block(R, rng, thorough):
+    """Normalize / Normalized on vectors of every length scale (fix a1cdfe7): Pythagorean tuples times 2^k, down to subnormal
+    lengths (the norm is a rational, so the model is exact)"""
+    ks = [-1074, -1073, -1072, -1070, -1060, -1040, -1023, -1022, -1000, -600, -30, 0, 40, 600, 1000, 1015]
+    for k in ks:
+        for t in (PYTHAG if thorough else rng.sample(PYTHAG, 4)):
+            sg = [rng.choice([-1, 1]) for _ in t]
+            try:
+                v = [math.ldexp(x * g, k) for x, g in zip(t, sg)]
+            except OverflowError:
+                continue
+            # the scaled tuple must be represented exactly (no underflow rounding, no overflow)
+            if any(math.isinf(x) for x in v) or any(Fraction(x) != Fraction(y) * g * Fraction(2) ** k for x, y, g in zip(v, t, sg)):
+                continue
+            if True:
+                R.append("c04.vhist %s 5 M N U N R 0" % lst(v))
+    # irrational norms (oracle only: the exact model has no root for them): small integer tuples times 2^k
+    for k in ks:
+        for t in ([1.0, 1.0], [1.0, 2.0], [1.0, 1.0, 1.0], [2.0, 3.0, 5.0], [1.0, 0.0, 3.0, 1.0], [7.0, 1.0]):
+            try:
+                v = [math.ldexp(x * rng.choice([-1, 1]), k) for x in t]
+            except OverflowError:
+                continue
+            if any(math.isinf(x) for x in v):
+                continue
+            R.append("c04.vhist %s 4 M U N R 0" % lst(v))
+
+
+
+def layout_block(R, rng, thorough):
+    """block constructor on empty, ragged and rectangular lists of rows of blocks (fix f27d82c)"""
+    def row_tok(blocks):
+        return "%d%s" % (len(blocks), "".join(" " + mat_tok(b) for b in blocks))
+    R.append("c04.blockr 0")                       # no row of blocks
+    R.append("c04.blockr 1 0")                     # one empty row
+    R.append("c04.blockr 2 0 0")
+    for _ in range(60 if thorough else 20):
+        nr = rng.randint(1, 3); nc = rng.randint(1, 3)
+        hs = [rng.randint(1, 3) for _ in range(nr)]; ws = [rng.randint(1, 3) for _ in range(nc + 1)]
+        counts = [nc] * nr
+        kind = rng.choice(["rect", "short", "long", "empty_row", "first_empty"])
+        if kind == "short" and nr >= 2 and nc >= 2:
+            counts[rng.randrange(1, nr)] = nc - 1
+        elif kind == "long" and nr >= 2:
+            counts[rng.randrange(1, nr)] = nc + 1
+        elif kind == "empty_row" and nr >= 2:
+            counts[rng.randrange(1, nr)] = 0
+        elif kind == "first_empty":
+            counts[0] = 0
+        elif kind == "short" and nr >= 2:
+            counts[0] = nc + 1                    # the FIRST row is the longer one
+        g = [[rmat(rng, hs[i], ws[j], "dy") for j in range(counts[i])] for i in range(nr)]
+        R.append("c04.blockr %d %s" % (nr, " ".join(row_tok(row) for row in g)))
+
+
 def guard_block(R, rng, m, n, fam):
     """class A: conformable and non-conformable partners of an m x n matrix"""
     A = rmat(rng, m, n, fam); a = mat_tok(A)
@@ -537,10 +595,12 @@ def generate(tier, seed, ctx):
     for _ in range(1000 if thorough else 200):
         R.append(gen_mhist(rng, rng.randint(3, 12)))
     R += triple_corpus()
+    layout_block(R, rng, thorough)
     struct_block(R, rng, thorough)
     subnormal_block(R, rng, thorough)
     chain_block(R, rng, thorough)
     wide_norm_block(R, rng, thorough)
+    normalized_scale_block(R, rng, thorough)
     rowcol_block(R, rng, thorough)
     pred_block(R)
     # the shortest stale-state histories as a fixed corpus
@@ -720,11 +780,18 @@ def pyref(op, a):
         if any(len(x) != k for x in rows):
             return ERR
         return rM(n, k, lambda i, j: (rows[i][j], 0), 0)
-    if op == "c04.block":
-        nr, nc = c.int(), c.int()
-        g = [[c.mat() for _ in range(nc)] for _ in range(nr)]
-        if nr == 0 or nc == 0:
-            return UNDEF
+    if op in ("c04.block", "c04.blockr"):
+        if op == "c04.block":
+            nr, nc = c.int(), c.int()
+            g = [[c.mat() for _ in range(nc)] for _ in range(nr)]
+        else:
+            nr = c.int(); g = []
+            for _ in range(nr):
+                k = c.int(); g.append([c.mat() for _ in range(k)])
+        # layout (fix f27d82c): at least one row of blocks, every row the same non-zero number of blocks
+        if nr == 0 or len(g[0]) == 0 or any(len(row) != len(g[0]) for row in g):
+            return ERR
+        nc = len(g[0])
         for i in range(nr):
             for j in range(nc):
                 if g[i][j][0] != g[i][0][0] or g[i][j][1] != g[0][j][1]:
@@ -811,8 +878,12 @@ def fsqrt(q):
 
 
 def sqrt_up(q):
-    """a rational upper bound of sqrt(q) (for tolerances only)"""
-    return Fraction(math.sqrt(float(q)) * (1 + 1e-12) + 1e-300) if q > 0 else Fraction(0)
+    """a rational upper bound of sqrt(q), tight to 1e-12 relative for every magnitude (for tolerances only)"""
+    if q <= 0:
+        return Fraction(0)
+    e = (q.numerator.bit_length() - q.denominator.bit_length()) // 2
+    scaled = q / Fraction(4) ** e
+    return Fraction(math.sqrt(float(scaled)) * (1 + 1e-12)) * Fraction(2) ** e
 
 
 def exact_dyadic(xs):
@@ -820,10 +891,20 @@ def exact_dyadic(xs):
     return all(abs(x) < 65536 and (x * 65536).denominator == 1 for x in xs)
 
 
+def fsqrt_hp(q):
+    """sqrt(q) as a Fraction: exact for perfect squares, else correct to 2^-300 relative (oracle only; the Lean model
+    answers `undef` for irrational norms)"""
+    r = fsqrt(q)
+    if r is not None or q <= 0:
+        return r
+    K = 320 + abs(q.numerator.bit_length() - q.denominator.bit_length())
+    return Fraction(math.isqrt(q.numerator * q.denominator * 4 ** K), q.denominator * 2 ** K)
+
+
 class VSim:
     """state of a Vector history: entries (exact) and the error bound of the C++ object's entries"""
-    def __init__(self, v):
-        self.v = [Fraction(x) for x in v]; self.err = Fraction(0)
+    def __init__(self, v, hp=False):
+        self.v = [Fraction(x) for x in v]; self.err = Fraction(0); self.hp = hp; self.irrational = False
 
     def mx(self):
         return max([abs(x) for x in self.v], default=Fraction(0))
@@ -848,6 +929,8 @@ class VSim:
             return [("int", n)]
         if k in ("M", "U"):
             S, tn = self.norm_tol(); r = fsqrt(S)
+            if r is None and self.hp and S > 0:
+                r = fsqrt_hp(S); self.irrational = True
             if r is None or r == 0:
                 return "undef"
             w = [x / r for x in self.v]
@@ -1261,7 +1344,7 @@ def parse_hist(op, a):
         r, k = c.int(), c.int(); return Rows([[rawf() for _ in range(k)] for _ in range(r)], k)
     ops = []
     if op == "c04.vhist":
-        sim = VSim(rvec())
+        sim = VSim(rvec(), hp=True)
         for _ in range(c.int()):
             k = c.tok()
             if k in ("R", "Z"):
@@ -1302,7 +1385,7 @@ def hist_ref(op, a):
         if res == "undef":
             return UNDEF
         items += res; names += [o[0]] * len(res)
-    return ("hist", items, names)
+    return ("hist", items, names, getattr(sim, "irrational", False))
 
 
 OBS_NAME = {"N": "Norm", "D": "Dot/Determinant", "S": "Size/shape", "R": "operator[] read", "M": "Normalized", "T": "Trace",
@@ -1312,7 +1395,7 @@ OBS_NAME = {"N": "Norm", "D": "Dot/Determinant", "S": "Size/shape", "R": "operat
 
 def check_hist(ref, ti, slack=4):
     """observer values of the implementation against the exact simulation"""
-    _, items, names = ref
+    items, names = ref[1], ref[2]
     if len(ti) != len(items):
         return "number of reported values: %d instead of %d" % (len(ti), len(items))
     for idx, (it, t, nm) in enumerate(zip(items, ti, names)):
@@ -1469,7 +1552,7 @@ LAW_NAMES = ["transpose(A*B) == transpose(B)*transpose(A)", "A*I == A", "I*A == 
 CHAIN_OPS = ("c04.mchain", "c04.vchain")
 INT_HEADER = {"c04.plus": 2, "c04.minus": 2, "c04.mul": 2, "c04.smul": 2, "c04.sdiv": 2, "c04.transpose": 2,
               "c04.subm": 2, "c04.delrow": 2, "c04.delcol": 2, "c04.identity": 2, "c04.diag": 2, "c04.const": 2,
-              "c04.ctor": 2, "c04.block": 2, "c04.outer": 2, "c04.matvec": 1, "c04.vecmat": 1, "c04.retrow": 1,
+              "c04.ctor": 2, "c04.block": 2, "c04.blockr": 2, "c04.outer": 2, "c04.matvec": 1, "c04.vecmat": 1, "c04.retrow": 1,
               "c04.retcol": 1, "c04.cross": 1, "c04.vadd": 1, "c04.vsub": 1, "c04.vsmul": 1, "c04.vsdiv": 1}
 SPELLED = {"c04.plus", "c04.minus", "c04.mul", "c04.smul", "c04.sdiv", "c04.matvec", "c04.dot", "c04.vadd",
            "c04.vsub", "c04.vsmul"}
@@ -1585,7 +1668,9 @@ def compare(rq, impl, model, ctx):
         bump(ctx, "outcome:" + tm_)
     if ref[0] == "hist":
         ctx["nontrivial"].add((op, tuple(sorted(set(ref[2]))), len(ref[1]) // 4))
-    if (ref[0] == "err") != (tm_ == "err") or (ref[0] == "undef") != (tm_ == "undef"):
+    if ref[0] == "hist" and ref[3] and tm_ == "undef":
+        bump(ctx, "history-with-irrational-norm:oracle-only")     # the rational model has no square root for it
+    elif (ref[0] == "err") != (tm_ == "err") or (ref[0] == "undef") != (tm_ == "undef"):
         out.append(fail("corr", clause_of(op, a) + ": model outcome %s, definition says %s" % (tm_, ref[0]), ""))
     elif tm_ == "ok":
         tm = toks(model)
